@@ -9,7 +9,7 @@ from ..core import Suite, VERIF
 from . import c05_methods as M
 
 PROPERTY = "C05"
-LEAN_MODULES = ["DAVerif.Props.C05"]
+LEAN_MODULES = ["DAVerif.Props.C05", "DAVerif.Props.C05agg"]
 THEOREMS = ["DAVerif." + t for t in (
     "C05_pandas_scalar", "C05_sqlite_scalar_partial", "C05_backends_agree_documented",
     "C05_G_mod_fraction_necessary", "C05_G_mod_sign_necessary", "C05_S_int_necessary",
@@ -23,7 +23,9 @@ THEOREMS = ["DAVerif." + t for t in (
     "C05_formatter_fmax", "C05_formatter_fmin", "C05_formatter_coalesce", "C05_formatter_is_null", "C05_formatter_is_in",
     "C05_formatter_mapv", "C05_formatter_comparisons", "C05_formatter_not", "C05_formatter_and", "C05_formatter_or",
     "C05_formatter_and3", "C05_formatter_or3", "C05_formatter_if_else_doc", "C05_formatter_maximum_doc",
-    "C05_catalog_covered", "C05_provable_covered")]
+    "C05_catalog_covered", "C05_provable_covered",
+    # group aggregates, window functions and aggregate formatters (Props/C05agg.lean)
+    "C05_max_pandas", "C05_min_pandas", "C05_max_sqlite", "C05_min_sqlite", "C05_max_documented_is_greatest", "C05_min_documented_is_least", "C05_max_min_no_item_agree", "C05_nunique_pandas", "C05_nunique_sqlite", "C05_nunique_documented_counts_distinct", "C05_median_pandas", "C05_median_sqlite", "C05_median_documented_is_middle", "C05_var_pandas", "C05_var_sqlite", "C05_any_value_sqlite", "C05_pandas_agg_full", "C05_sqlite_agg_full_partial", "C05_S_groupOp_necessary", "C05_agg_backends_agree", "C05_first_pandas", "C05_last_pandas", "C05_silent_first_last_missing_end", "C05_ffill_pandas", "C05_bfill_pandas", "C05_rank_pandas", "C05_silent_rank_tie", "C05_pandas_win_full_partial", "C05_sqlite_win_full_partial", "C05_formatter_count", "C05_formatter_size", "C05_formatter_mean", "C05_formatter_any", "C05_formatter_all", "C05_formatter_any_value", "C05_formatter_NoStr_necessary", "C05_formatter_all_skips_null", "C05_modelled_now_proved", "C05_provable_all_proved")]
 ASSUMPTIONS = [
     "the docstrings of expr_rep.Term are read as transcribed in lean/DAVerif/Spec/DocSem.lean (each clause quotes its "
     "docstring; operators without docstring = the Python operator on values of one kind); `none` = the documentation names "
@@ -49,13 +51,11 @@ NOT_PROVEN = [
     "arctanh cos cosh exp expm1 log log10 log1p sin sinh sqrt tanh, ** with a fractional exponent, as_str of numbers, std, "
     "base_Sunday date_diff datetime_to_date dayofmonth dayofweek dayofyear format_date format_datetime month parse_date "
     "parse_datetime quarter timestamp_diff weekofyear year; _uniform _count _ngroup (no documentation: only executed)",
-    "max min median var nunique rank ffill bfill first last: modelled (ThetaX / ThetaSqlX tied by k1_methods) and judged "
-    "by the oracle against the documentation, documented value not proved in Lean",
-    "any_value on SQL (MAX) against the documentation on constant groups: oracle only",
     "every (method, PostgreSQL) and (method, Polars) pair: sampled (stand-in engine / real Polars), no Lean model; "
     "the PostgreSQL *formatter texts* of the null/logic operators are proved",
-    "aggregate formatters (count size mean any all any_value) are extracted and parsed but their group evaluation is not "
-    "proved against ThetaSqlX.agg: correspondence only",
+    "max min median var nunique any_value (both backends) and first last ffill bfill rank (Pandas; no SQL backend claims them) "
+    "are proved in Props/C05agg.lean on exactly the domain where the documentation determines a value (rank: tie-free input; "
+    "first/last: a non-missing end item); std, _count, _ngroup stay sampled",
 ]
 LEVEL_TEXT = ("Kernel-checked: for every row-wise method of the null/logic/order and exact-arithmetic classes (41 operators, any "
               "argument list) the Pandas model computes the documented value wherever the documentation determines one "
